@@ -1108,8 +1108,8 @@ func (g *G) drawGenesis(o GenOpts) *GenSpec {
 		}
 	}
 	for i, d := range doms {
-		if d == 4 {
-			d = 6
+		if d == 4 && rapid.Bool().Draw(t, "nodomain4") {
+			d = 6 // (half of the time Noble's own domain id stays: nothing forbids a messenger or a used nonce for it)
 		}
 		addr := make([]byte, 32)
 		copy(addr[12:], attest.Keccak([]byte{byte(i), 'm'})[:20])
